@@ -417,6 +417,10 @@ func c13Cycles(c *core.Ctx) {
 				p.Services[sched.Name(i)].DependsOn["off"] = types.ServiceDependency{Condition: types.ServiceConditionHealthy, Required: false}
 			}
 		}
+		if n%2 == 0 && v.N > 0 {
+			// the same name also among the disabled services (a hand-built project): the enabled one is the one the edges mean
+			p.DisabledServices[sched.Name(1)] = types.ServiceConfig{Name: sched.Name(1), Image: "stale"}
+		}
 		beforeProject := fmt.Sprintf("%#v", p)
 		for rep := 0; rep < 4; rep++ {
 			if ccErr := graph.CheckCycle(p); v.Cyclic && ccErr == nil {
